@@ -5,6 +5,7 @@ import J5V.Print.OptionTextProofs
 import J5V.Print.LayoutProofs
 import J5V.Print.Grammar
 import J5V.Print.ScalarProofs
+import J5V.Print.ReparseMain
 /-!
 # C05 — generated .proto text re-parses to the descriptor it was printed from
 
@@ -517,5 +518,91 @@ example : printFile "gen" exRead = printFile "gen" exFile :=
         Order.locLess_irrefl, Order.isort, Order.insertBy, Loc.none])
 
 end example_file
+
+/-! ## 7. the printed text is read back as the descriptor it was printed from (a validated grammar model)
+
+`Grammar.parseFile` is a model of the reader: a tokeniser (identifiers, numbers, string literals,
+punctuation, line comments with protocompile's attribution rules) and a recursive-descent parser
+of the proto3 subset the printer emits. It is validated against bufbuild/protocompile on every op
+of the `print.file` stream (same elements, source lines, attributed comments, fields, options). The
+theorem below discharges the "grammar assumed" hypothesis for the descriptor shape `SimpleFile`:
+package, imports (plain / public / weak), messages with nested messages and enums, fields (no label
+/ `repeated` / `optional`; scalar, relative, package-qualified and fully-qualified type names; any
+number, negative ones included), enum values — without options, comments, services, extensions, map
+types and custom JSON names (those are covered by the stream, not yet by the theorem). -/
+
+open Layout Grammar Reparse in
+/-- **parse (print d) = d′ with d′ ≍ d, and print d′ = print d.** For every `d` whose printed
+arrangement is a `SimpleFile`: the grammar model reads the printed text as `rdFile d.arranged` — by
+`relaidFile` the same package, imports and elements (names, numbers, type names, labels, JSON
+names, nesting, enum values, in printed order) with the source lines of the text — and printing that
+reading reproduces the text. Over characters: the tokeniser is part of the statement. -/
+theorem C05_reparse (gen : String) (d : FileD) (h : SimpleFile gen d.arranged) :
+    parseFile (printText gen d) = some (rdFile d.arranged) ∧
+    relaidFile d.arranged (rdFile d.arranged) ∧
+    printFile gen (rdFile d.arranged) = printFile gen d :=
+  ⟨parse_print gen d.arranged h, relaid_rdFile gen d.arranged h, reprint_simple gen d.arranged h⟩
+
+/-! non-vacuity: a file with a public import, a message with a scalar field, a repeated field of a
+package-qualified type, a nested empty message and a nested enum with a negative value -/
+section simple_example
+open Layout OptionText Grammar Reparse
+
+def fld (label ty name : String) (num : Int) : Item :=
+  .field ⟨.field, Loc.none, 0, label, ty, name, num, some (String.ofList (defaultJSONName name.toList)), []⟩
+def val (name : String) (num : Int) : Item := .field ⟨.value, Loc.none, 0, "", "", name, num, none, []⟩
+
+/-- a simple file in printed order -/
+def simpleEx : FileD :=
+  ⟨Loc.none, "p.v1", [("a/b.proto", "public ")], [], [],
+   [ .block "message" 1 Loc.none 0 "M" []
+       [ fld "" "string" "a" 1, fld "repeated " "q.E" "b_c" 2,
+         .block "message" 1 Loc.none 0 "N" [] [],
+         .block "enum" 2 Loc.none 0 "E" [] [val "E_UNSPECIFIED" 0, val "E_X" (-1)] ] ]⟩
+
+theorem ident (s : String) (c : Char) (cs : List Char) (h : s.toList = c :: cs) (h1 : isLetter c = true)
+    (h2 : cs.all isIdentChar = true) : IsIdent s :=
+  ⟨c, cs, h, h1, by simpa [List.all_eq_true] using h2⟩
+
+theorem kwOk_of (s : String) (h : decide (s ≠ "repeated" ∧ s ≠ "optional" ∧ s ≠ "option" ∧ s ≠ "message" ∧ s ≠ "enum" ∧ s ≠ "oneof") = true) :
+    kwOk s := by unfold kwOk; exact of_decide_eq_true h
+
+theorem simpleEx_ok : SimpleFile "gen" simpleEx := by
+  refine ⟨by intro c hc; revert c; decide, ⟨rfl, rfl, rfl, rfl, rfl⟩, ?_, ?_, ?_, rfl, rfl, ?_, ?_⟩
+  · exact ⟨"p", ["v1"], ident "p" 'p' [] (by decide) (by decide) (by decide),
+      by intro r hr; simp at hr; subst hr; exact ident "v1" 'v' ['1'] (by decide) (by decide) (by decide), by decide⟩
+  · intro i hi
+    simp only [simpleEx, List.mem_singleton] at hi
+    subst hi
+    exact ⟨by intro c hc; revert c; decide, Or.inr (Or.inl rfl)⟩
+  · simp [simpleEx]
+  · have hM : IsIdent "M" := ident "M" 'M' [] (by decide) (by decide) (by decide)
+    have hN : IsIdent "N" := ident "N" 'N' [] (by decide) (by decide) (by decide)
+    have hE : IsIdent "E" := ident "E" 'E' [] (by decide) (by decide) (by decide)
+    have hfa : SimpleField ⟨.field, Loc.none, 0, "", "string", "a", 1, some (String.ofList (defaultJSONName "a".toList)), []⟩ :=
+      ⟨rfl, ⟨rfl, rfl, rfl, rfl, rfl⟩, rfl, Or.inl rfl, ident "a" 'a' [] (by decide) (by decide) (by decide), rfl,
+        false, "string", [], ident "string" 's' ['t','r','i','n','g'] (by decide) (by decide) (by decide),
+        by simp, by decide, by decide, fun _ _ => kwOk_of _ (by decide)⟩
+    have hfb : SimpleField ⟨.field, Loc.none, 0, "repeated ", "q.E", "b_c", 2, some (String.ofList (defaultJSONName "b_c".toList)), []⟩ :=
+      ⟨rfl, ⟨rfl, rfl, rfl, rfl, rfl⟩, rfl, Or.inr (Or.inl rfl), ident "b_c" 'b' ['_','c'] (by decide) (by decide) (by decide), rfl,
+        false, "q", ["E"], ident "q" 'q' [] (by decide) (by decide) (by decide),
+        by intro r hr; simp at hr; subst hr; exact hE,
+        by decide, by decide, fun h => by simp at h⟩
+    have hv0 : SimpleValue ⟨.value, Loc.none, 0, "", "", "E_UNSPECIFIED", 0, none, []⟩ :=
+      ⟨rfl, ⟨rfl, rfl, rfl, rfl, rfl⟩, rfl, rfl, rfl,
+        ident "E_UNSPECIFIED" 'E' "_UNSPECIFIED".toList (by decide) (by decide) (by decide), by decide, rfl⟩
+    have hv1 : SimpleValue ⟨.value, Loc.none, 0, "", "", "E_X", -1, none, []⟩ :=
+      ⟨rfl, ⟨rfl, rfl, rfl, rfl, rfl⟩, rfl, rfl, rfl,
+        ident "E_X" 'E' ['_', 'X'] (by decide) (by decide) (by decide), by decide, rfl⟩
+    simp only [simpleEx, SimpleKids, SimpleItem, SimpleValues, fld, val]
+    exact ⟨⟨⟨rfl, rfl, rfl, rfl, rfl⟩, trivial, hM, Or.inl ⟨trivial, trivial, hfa, hfb,
+      ⟨⟨rfl, rfl, rfl, rfl, rfl⟩, trivial, hN, Or.inl ⟨trivial, trivial, trivial⟩⟩,
+      ⟨⟨rfl, rfl, rfl, rfl, rfl⟩, trivial, hE, Or.inr ⟨trivial, trivial, hv0, hv1, trivial⟩⟩, trivial⟩⟩, trivial⟩
+  · simp [simpleEx, AllBlocks, IsBlock]
+
+/-- the example is its own arrangement (one message; fields before the nested message before the enum) -/
+example : simpleEx.arranged = simpleEx := by rfl
+
+end simple_example
 
 end J5V.Props.C05
